@@ -123,15 +123,16 @@ def record_analysis(spec):
     except (ZeroDivisionError, ValueError, OverflowError, FloatingPointError) as exc:
         import traceback
         tb = traceback.extract_tb(exc.__traceback__)
-        if any(common_src() in (fr.filename or "") for fr in tb):
+        if any((fr.filename or "").startswith(common_src()) for fr in tb):
             raise                                         # raised inside the code under test: reported by the generic guard
         return {"meta": dict(spec, nf=0, recorder_exception=f"{type(exc).__name__}: {exc} at {tb[-1].name}:{tb[-1].lineno}"), "c": {"nf": 0},
                 "ev": [{"t": "broken"}]}
 
 
 def common_src():
+    import os
     from . import common
-    return str(common.SRC)
+    return os.path.realpath(str(common.SRC)) + os.sep
 
 
 def _record_analysis(spec):
